@@ -109,18 +109,24 @@ def shard(binpath, seed, sh, n):
         base = len(reqs)
         reqs.append((layout, ["ed0"], "new"))
         links = []
+        cosigned = False
         for j, nm in enumerate(names):
             mats, prods = pipeline.chain_artifacts(j)
             doc = scen.mk_link(nm, mats, prods, ["c"], {"stdout": "o", "return-value": 0}, None)
+            # the dissenter may also have co-signed the (agreeing) link file of another functionary: his own,
+            # differing link is evidence all the same
+            holder = rng.choice([x for x in keys if x != dk]) if (j == si and kind != "none" and rng.random() < 0.35) else None
+            if holder:
+                cosigned = True
             for x in (keys if j == si else keys[:1]):
                 d = doc
                 if j == si and x == dk and kind != "none":
                     d = dissent_doc(doc, kind, where, rng)
                 links.append({"step": nm, "key": x, "req": len(reqs)})
-                reqs.append((d, [x], "new"))
+                reqs.append((d, [x, dk] if x == holder and rng.random() < 0.5 else [dk, x] if x == holder else [x], "new"))
         scs.append({"base": base, "links": links, "meta": {
             "threshold": thr, "k": k, "dissent": kind, "where": where if kind not in ("none", "byproducts_only", "command_only") else "-",
-            "rank": rank, "dissent_in_artifacts": kind not in ("none", "byproducts_only", "command_only")}, "ids": [W.kid(x) for x in keys]})
+            "rank": rank, "cosigned": cosigned, "dissent_in_artifacts": kind not in ("none", "byproducts_only", "command_only")}, "ids": [W.kid(x) for x in keys]})
     wires = scen.sign_all(binpath, reqs, nproc=1)
     cases = []
     for sc in scs:
@@ -138,6 +144,8 @@ def shard(binpath, seed, sh, n):
                "accepted" if oks else "rejected"]
         if not m["dissent_in_artifacts"] and oks:
             cls.append("positive_control_accepted")
+        if m.get("cosigned"):
+            cls.append("dissenter_cosigned_another_link:" + ("dissent" if m["dissent_in_artifacts"] else "no_artifact_dissent"))
         res.note([c["layout"], sorted(c["files"].items())], True, cls=cls, n=len(o["runs"]))
         res.extras["distinct_iteration_orders_seen_max"] = max(res.extras.get("distinct_iteration_orders_seen_max", 0), o.get("distinct_orders", 0))
     if sh == 0:
@@ -162,5 +170,6 @@ def main(ctx):
         assumptions=["validity of all links by construction"],
         required=["positive_control_accepted", "dissent:path", "dissent:digest", "dissent:alg", "dissent:extra",
                   "dissent:missing", "where:materials", "where:products", "rank:smallest", "rank:largest", "rank:middle",
-                  "surplus_links", "threshold:2", "threshold:3", "threshold:4", "dissent:byproducts_only", "dissent:digest_truncated", "dissent:path_respelled"],
+                  "surplus_links", "threshold:2", "threshold:3", "threshold:4", "dissent:byproducts_only", "dissent:digest_truncated", "dissent:path_respelled",
+                  "dissenter_cosigned_another_link:dissent", "dissenter_cosigned_another_link:no_artifact_dissent"],
         min_evals=1000)
